@@ -1,0 +1,356 @@
+//go:build verif
+
+package value
+
+// Machine-checked contracts for package value (read by /verif/znvc; comment-only, compiled to nothing).
+//
+// Heap type invariants (assumed at every load, asserted at every store and allocation):
+//   - every r.Element stored in the heap is a non-nil interface holding a non-nil pointer (built into znvc);
+//   - the fields below are never nil.
+
+//@ fieldinv HashMap.value nonnil
+//@ fieldinv Object.propList nonnil
+//@ fieldinv Object.model nonnil
+//@ fieldinv ClassModel.constructor nonnil
+//@ fieldinv ClassModel.propList nonnil
+//@ fieldinv ClassModel.compPropList nonnil
+//@ fieldinv ClassModel.methodList nonnil
+//@ fieldinv Function.logicHandler nonnil
+//@ fieldinv IV.root nonnil
+
+//@ pred isRuntimeError(e error, code int) =
+//@   is(e, *zerr.RuntimeError) && as(e, *zerr.RuntimeError) != nil && as(e, *zerr.RuntimeError).Code == code
+
+// ---- dispatch-table function types ----
+
+//@ functype arrayGetterFunc(ar) (r, err)
+//@   requires ar != nil
+//@   ensures err == nil ==> okElem(r)
+//@ functype arraySetterFunc(ar, v) (err)
+//@   requires ar != nil && okElem(v)
+//@ functype arrayMethodFunc(ar, values) (r, err)
+//@   requires ar != nil
+//@   ensures err == nil ==> okElem(r)
+//@ functype numGetterFunc(n) (r, err)
+//@   requires n != nil
+//@   ensures err == nil ==> okElem(r)
+//@ functype numMethodFunc(n, values) (r, err)
+//@   requires n != nil
+//@   ensures err == nil ==> okElem(r)
+//@ functype strGetterFunc(s) (r, err)
+//@   requires s != nil
+//@   ensures err == nil ==> okElem(r)
+//@ functype strMethodFunc(s, values) (r, err)
+//@   requires s != nil
+//@   ensures err == nil ==> okElem(r)
+//@ functype boolGetterFunc(b) (r, err)
+//@   requires b != nil
+//@   ensures err == nil ==> okElem(r)
+
+// ---- constructors and accessors ----
+
+//@ func NewNumber
+//@   modifies nothing
+//@   ensures fresh(result) && result != nil && result.value == value
+//@ func NewString
+//@   modifies nothing
+//@   ensures fresh(result) && result != nil && result.value == value
+//@ func NewBool
+//@   modifies nothing
+//@   ensures fresh(result) && result != nil && result.value == value
+//@ func NewNull
+//@   modifies nothing
+//@   ensures fresh(result) && result != nil
+//@ func NewException
+//@   modifies nothing
+//@   ensures fresh(result) && result != nil && result.Message == message
+//@ func NewArray
+//@   modifies nothing
+//@   ensures fresh(result) && result != nil && result.value == value
+//@ func NewEmptyArray
+//@   modifies nothing
+//@   ensures fresh(result) && result != nil && len(result.value) == 0 && fresh(result.value)
+//@ func NewEmptyHashMap
+//@   modifies nothing
+//@   ensures fresh(result) && hmWF(result) && len(result.keyOrder) == 0
+
+//@ method (*Number).GetValue
+//@   pure
+//@   ensures result == n.value
+//@ method (*String).GetValue
+//@   pure
+//@   ensures result == s.value
+//@ method (*String).String
+//@   pure
+//@   ensures result == s.value
+//@ method (*Bool).GetValue
+//@   pure
+//@   ensures result == b.value
+//@ method (*Array).GetValue
+//@   pure
+//@   ensures result == ar.value
+//@ method (*Array).Length
+//@   pure
+//@   ensures result == len(ar.value)
+//@ method (*HashMap).GetKeyOrder
+//@   pure
+//@   ensures result == hm.keyOrder
+//@ method (*HashMap).GetValue
+//@   pure
+//@   ensures result == hm.value
+//@ method (*GoValue).GetTag
+//@   pure
+//@   ensures result == gv.tag
+//@ method (*ClassModel).GetName
+//@   pure
+//@   ensures result == cm.name
+//@ method (*ClassModel).GetPropList
+//@   pure
+//@   ensures result == cm.propList && result != nil
+//@ method (*ClassModel).FindMethod
+//@   pure
+//@   ensures r1 == has(cm.methodList, name) && (r1 ==> r0 == cm.methodList[name])
+//@ method (*ClassModel).FindCompProp
+//@   pure
+//@   ensures r1 == has(cm.compPropList, name) && (r1 ==> r0 == cm.compPropList[name])
+
+// ---- parameter validators ----
+
+// what a type name in a validator demands of a parameter
+//@ pred paramOK(v r.Element, t string) =
+//@   (t == "number" ==> is(v, *Number)) && (t == "string" ==> is(v, *String)) && (t == "array" ==> is(v, *Array)) &&
+//@   (t == "hashmap" ==> is(v, *HashMap)) && (t == "bool" ==> is(v, *Bool)) && (t == "object" ==> is(v, *Object)) &&
+//@   (t == "function" ==> is(v, *Function)) && (t == "govalue" ==> is(v, *GoValue))
+
+//@ func validateOneParam
+//@   requires okElem(v)
+//@   modifies nothing
+//@   ensures result == nil ==> paramOK(v, typeStr)
+//@   ensures result != nil ==> isRuntimeError(result, 82)
+
+//@ func ValidateExactParams
+//@   modifies nothing
+//@   ensures result == nil ==> len(values) == len(typeStr) &&
+//@             (forall i int :: 0 <= i && i < len(values) ==> paramOK(values[i], typeStr[i]))
+//@   loop 1 invariant forall i int :: 0 <= i && i <= rangeindex && i < len(values) ==> paramOK(values[i], typeStr[i])
+
+//@ func ValidateAllParams
+//@   modifies nothing
+//@   ensures result == nil ==> (forall i int :: 0 <= i && i < len(values) ==> paramOK(values[i], typeStr))
+//@   loop 1 invariant forall i int :: 0 <= i && i <= rangeindex && i < len(values) ==> paramOK(values[i], typeStr)
+
+// ---- dictionaries (C12): keyOrder is a duplicate-free enumeration of the keys of value ----
+
+//@ pred hmWF(hm *HashMap) =
+//@   hm != nil && hm.value != nil && len(hm.value) == len(hm.keyOrder) &&
+//@   (forall i int :: 0 <= i && i < len(hm.keyOrder) ==> has(hm.value, hm.keyOrder[i])) &&
+//@   (forall i, j int :: 0 <= i && i < j && j < len(hm.keyOrder) ==> hm.keyOrder[i] != hm.keyOrder[j]) &&
+//@   (forall k string :: has(hm.value, k) ==> (exists i int :: 0 <= i && i < len(hm.keyOrder) && hm.keyOrder[i] == k))
+
+// ---- lists (C12): 1-indexed sequences ----
+
+// position at which 新增 inserts: past the end -> append; negative counts from the end (clamped at the front)
+//@ fn normIdx(idx int, n int) int = idx >= n ? n : (idx < 0 ? (n + idx < 0 ? 0 : n + idx) : idx)
+
+//@ func insertArrayValue
+//@   requires okElem(insertItem)
+//@   modifies mem(target)
+//@   ensures len(result) == len(target) + 1
+//@   ensures [inserted] result[normIdx(idx, len(target))] == insertItem
+//@   ensures [prefix] forall i int :: 0 <= i && i < normIdx(idx, len(target)) ==> result[i] == old(target[i])
+//@   ensures [suffix] forall i int :: normIdx(idx, len(target)) <= i && i < len(target) ==> result[i+1] == old(target[i])
+//@   ensures [target-kept] forall i int :: 0 <= i && i < len(target) ==> target[i] == old(target[i])
+
+//@ func shiftArrayValue
+//@   modifies nothing
+//@   ensures okElem(r0)
+//@   ensures [empty] len(target) == 0 ==> is(r0, *Null) && len(r1) == 0
+//@   ensures [left]  len(target) > 0 && left ==> r0 == target[0] && len(r1) == len(target) - 1 &&
+//@             (forall i int :: 0 <= i && i < len(r1) ==> r1[i] == target[i+1])
+//@   ensures [right] len(target) > 0 && !left ==> r0 == target[len(target)-1] && len(r1) == len(target) - 1 &&
+//@             (forall i int :: 0 <= i && i < len(r1) ==> r1[i] == target[i])
+
+//@ method (*Array).AppendValue
+//@   requires okElem(value)
+//@   modifies ar.value, mem(ar.value)
+//@   ensures len(ar.value) == old(len(ar.value)) + 1 && ar.value[old(len(ar.value))] == value
+//@   ensures forall i int :: 0 <= i && i < old(len(ar.value)) ==> ar.value[i] == old(ar.value[i])
+
+//@ func arrayGetFirstItem
+//@   requires ar != nil
+//@   modifies nothing
+//@   ensures r1 == nil && okElem(r0)
+//@   ensures len(ar.value) > 0 ==> r0 == ar.value[0]
+//@   ensures len(ar.value) == 0 ==> is(r0, *Null)
+
+//@ func arrayGetLastItem
+//@   requires ar != nil
+//@   modifies nothing
+//@   ensures r1 == nil && okElem(r0)
+//@   ensures len(ar.value) > 0 ==> r0 == ar.value[len(ar.value)-1]
+//@   ensures len(ar.value) == 0 ==> is(r0, *Null)
+
+//@ func arrayGetLength
+//@   requires ar != nil
+//@   modifies nothing
+//@   ensures r1 == nil && is(r0, *Number) && okElem(r0) && as(r0, *Number).value == float(len(ar.value))
+
+//@ func arrayGetReverse
+//@   requires ar != nil
+//@   modifies nothing
+//@   ensures r1 == nil && is(r0, *Array) && okElem(r0) && len(as(r0, *Array).value) == len(ar.value)
+//@   ensures forall i int :: 0 <= i && i < len(ar.value) ==> as(r0, *Array).value[i] == ar.value[len(ar.value)-1-i]
+//@   loop 1 invariant 0 <= i && i <= l && l == len(ar.value) && len(result) == i && (result.base == 0 || fresh(result))
+//@   loop 1 invariant forall j int :: 0 <= j && j < i ==> result[j] == ar.value[l-1-j]
+//@   loop 1 decreases l - i
+
+//@ func arrayExecSwap
+//@   requires ar != nil
+//@   modifies mem(ar.value)
+//@   ensures r1 == nil ==> r0 == iface(ar, *Array)
+//@   ensures len(ar.value) == old(len(ar.value))
+
+//@ method (*IV).ReduceRHS
+//@   modifies *
+//@   ensures [list-read] old(iv.reduceType) == IVTypeArray && old(is(iv.root, *Array)) ==>
+//@             (1 <= old(iv.index) && old(iv.index) <= old(len(as(iv.root, *Array).value)) ?
+//@                r1 == nil && r0 == old(as(iv.root, *Array).value[iv.index - 1]) : isRuntimeError(r1, 40))
+//@   ensures [list-type] old(iv.reduceType) == IVTypeArray && !old(is(iv.root, *Array)) ==> isRuntimeError(r1, 80)
+//@   ensures [dict-read] old(iv.reduceType) == IVTypeHashMap && old(is(iv.root, *HashMap)) ==>
+//@             (old(has(as(iv.root, *HashMap).value, iv.member)) ?
+//@                r1 == nil && r0 == old(as(iv.root, *HashMap).value[iv.member]) : isRuntimeError(r1, 41))
+//@   ensures [ok-result] r1 == nil ==> okElem(r0)
+
+//@ method (*IV).ReduceLHS
+//@   requires okElem(input)
+//@   modifies *
+//@   ensures [list-write] old(iv.reduceType) == IVTypeArray && old(is(iv.root, *Array)) &&
+//@             1 <= old(iv.index) && old(iv.index) <= old(len(as(iv.root, *Array).value)) ==>
+//@             result == nil && old(as(iv.root, *Array)).value[old(iv.index) - 1] == input &&
+//@             old(as(iv.root, *Array)).value == old(as(iv.root, *Array).value) &&
+//@             (forall j int :: 0 <= j && j < old(len(as(iv.root, *Array).value)) && j != old(iv.index) - 1 ==>
+//@                 old(as(iv.root, *Array)).value[j] == old(as(iv.root, *Array).value[j]))
+//@   ensures [list-range] old(iv.reduceType) == IVTypeArray && old(is(iv.root, *Array)) &&
+//@             !(1 <= old(iv.index) && old(iv.index) <= old(len(as(iv.root, *Array).value))) ==>
+//@             isRuntimeError(result, 40) && old(as(iv.root, *Array)).value == old(as(iv.root, *Array).value) &&
+//@             (forall j int :: 0 <= j && j < old(len(as(iv.root, *Array).value)) ==>
+//@                 old(as(iv.root, *Array)).value[j] == old(as(iv.root, *Array).value[j]))
+//@   ensures [list-type] old(iv.reduceType) == IVTypeArray && !old(is(iv.root, *Array)) ==> isRuntimeError(result, 80)
+
+//@ func arraySetFirstItem
+//@   requires ar != nil && okElem(value)
+//@   modifies ar.value, mem(ar.value)
+//@   ensures result == nil
+//@   ensures old(len(ar.value)) > 0 ==> len(ar.value) == old(len(ar.value)) && ar.value[0] == value &&
+//@             (forall j int :: 1 <= j && j < len(ar.value) ==> ar.value[j] == old(ar.value[j]))
+
+//@ func arraySetLastItem
+//@   requires ar != nil && okElem(value)
+//@   modifies ar.value, mem(ar.value)
+//@   ensures result == nil
+//@   ensures old(len(ar.value)) > 0 ==> len(ar.value) == old(len(ar.value)) && ar.value[len(ar.value)-1] == value &&
+//@             (forall j int :: 0 <= j && j < len(ar.value) - 1 ==> ar.value[j] == old(ar.value[j]))
+
+//@ func arrayExecPrepend
+//@   requires ar != nil
+//@   modifies ar.value, mem(ar.value)
+//@   ensures r1 == nil ==> r0 == iface(ar, *Array) && len(values) == 1 && len(ar.value) == old(len(ar.value)) + 1 &&
+//@             ar.value[0] == old(values[0]) && (forall i int :: 0 <= i && i < old(len(ar.value)) ==> ar.value[i+1] == old(ar.value[i]))
+//@   ensures r1 != nil ==> ar.value == old(ar.value)
+
+//@ func arrayExecAppend
+//@   requires ar != nil
+//@   modifies ar.value, mem(ar.value)
+//@   ensures r1 == nil ==> r0 == iface(ar, *Array) && len(values) == 1 && len(ar.value) == old(len(ar.value)) + 1 &&
+//@             ar.value[old(len(ar.value))] == old(values[0]) && (forall i int :: 0 <= i && i < old(len(ar.value)) ==> ar.value[i] == old(ar.value[i]))
+//@   ensures r1 != nil ==> ar.value == old(ar.value)
+
+//@ func arrayExecShift
+//@   requires ar != nil
+//@   modifies ar.value
+//@   ensures r1 == nil && okElem(r0)
+//@   ensures old(len(ar.value)) == 0 ==> is(r0, *Null) && len(ar.value) == 0
+//@   ensures old(len(ar.value)) > 0 ==> r0 == old(ar.value[0]) && len(ar.value) == old(len(ar.value)) - 1 &&
+//@             (forall i int :: 0 <= i && i < len(ar.value) ==> ar.value[i] == old(ar.value[i+1]))
+
+//@ func arrayExecPop
+//@   requires ar != nil
+//@   modifies ar.value
+//@   ensures r1 == nil && okElem(r0)
+//@   ensures old(len(ar.value)) == 0 ==> is(r0, *Null) && len(ar.value) == 0
+//@   ensures old(len(ar.value)) > 0 ==> r0 == old(ar.value[len(ar.value)-1]) && len(ar.value) == old(len(ar.value)) - 1 &&
+//@             (forall i int :: 0 <= i && i < len(ar.value) ==> ar.value[i] == old(ar.value[i]))
+
+//@ func arrayExecInsert
+//@   requires ar != nil
+//@   modifies ar.value, mem(ar.value)
+//@   ensures r1 == nil ==> r0 == iface(ar, *Array) && len(values) == 2 && len(ar.value) == old(len(ar.value)) + 1
+//@   ensures r1 != nil ==> ar.value == old(ar.value)
+
+//@ func arrayExecMerge
+//@   requires ar != nil
+//@   modifies ar.value
+//@   ensures r1 == nil ==> is(r0, *Array) && okElem(r0) && as(r0, *Array).value == ar.value
+//@   ensures r1 == nil ==> (forall i int :: 0 <= i && i < old(len(ar.value)) ==> ar.value[i] == old(ar.value[i])) && len(ar.value) >= old(len(ar.value))
+//@   loop 1 invariant (result.base == 0 || fresh(result)) && len(result) >= len(ar.value) && ar.value == old(ar.value) && sameMem(old(ar.value))
+//@   loop 1 invariant forall i int :: 0 <= i && i < len(ar.value) ==> result[i] == ar.value[i]
+//@   loop 1 invariant forall i int :: 0 <= i && i < len(values) ==> is(values[i], *Array)
+
+//@ method (*HashMap).AppendKVPair
+//@   requires hmWF(hm) && okElem(pair.Value)
+//@   modifies hm.keyOrder, mem(hm.keyOrder), map(hm.value)
+//@   ensures hmWF(hm) && hm.value == old(hm.value)
+//@   ensures [written] has(hm.value, pair.Key) && hm.value[pair.Key] == pair.Value
+//@   ensures [others-kept] forall k string :: k != pair.Key ==> has(hm.value, k) == old(has(hm.value, k)) && hm.value[k] == old(hm.value[k])
+//@   ensures [overwrite-keeps-place] old(has(hm.value, pair.Key)) ==> len(hm.keyOrder) == old(len(hm.keyOrder)) &&
+//@             (forall i int :: 0 <= i && i < len(hm.keyOrder) ==> hm.keyOrder[i] == old(hm.keyOrder[i]))
+//@   ensures [new-key-appended] !old(has(hm.value, pair.Key)) ==> len(hm.keyOrder) == old(len(hm.keyOrder)) + 1 &&
+//@             hm.keyOrder[old(len(hm.keyOrder))] == pair.Key &&
+//@             (forall i int :: 0 <= i && i < old(len(hm.keyOrder)) ==> hm.keyOrder[i] == old(hm.keyOrder[i]))
+
+//@ func hmGetLength
+//@   requires hmWF(hm)
+//@   modifies nothing
+//@   ensures r1 == nil && is(r0, *Number) && okElem(r0) && as(r0, *Number).value == float(len(hm.keyOrder))
+
+//@ func hmExecSet
+//@   requires hmWF(hm)
+//@   modifies hm.keyOrder, mem(hm.keyOrder), map(hm.value)
+//@   ensures hmWF(hm)
+//@   ensures r1 == nil ==> len(values) == 2 && is(old(values[0]), *String) && r0 == old(values[1]) &&
+//@             has(hm.value, old(as(values[0], *String).value)) && hm.value[old(as(values[0], *String).value)] == old(values[1])
+//@   ensures r1 != nil ==> len(hm.keyOrder) == old(len(hm.keyOrder))
+
+//@ typeinv HashMap hmWF(self)
+
+//@ functype hmGetterFunc(hm) (r, err)
+//@   requires hmWF(hm)
+//@   ensures hmWF(hm) && (err == nil ==> okElem(r))
+//@ functype hmMethodFunc(hm, values) (r, err)
+//@   requires hmWF(hm)
+//@   ensures hmWF(hm) && (err == nil ==> okElem(r))
+
+// 移除: the key leaves both structures; the relative order of the other keys is unchanged
+//@ func hmExecDelete
+//@   requires hmWF(hm)
+//@   modifies hm.keyOrder, mem(hm.keyOrder), map(hm.value)
+//@   ensures hmWF(hm)
+//@   ensures r1 == nil ==> okElem(r0)
+//@   ensures [removed] r1 == nil ==> !has(hm.value, old(as(values[0], *String).value))
+//@   ensures [missing-key-unchanged] r1 == nil && !old(has(hm.value, as(values[0], *String).value)) ==>
+//@             len(hm.keyOrder) == old(len(hm.keyOrder)) && is(r0, *Null) &&
+//@             (forall j int :: 0 <= j && j < len(hm.keyOrder) ==> hm.keyOrder[j] == old(hm.keyOrder[j]))
+//@   ensures [returns-old-value] r1 == nil && old(has(hm.value, as(values[0], *String).value)) ==>
+//@             r0 == old(hm.value[as(values[0], *String).value]) && len(hm.keyOrder) == old(len(hm.keyOrder)) - 1
+//@   loop 1 invariant hm.value == old(hm.value) && rangeindex < old(len(hm.keyOrder))
+//@   loop 1 invariant [not-yet] len(hm.keyOrder) == old(len(hm.keyOrder)) ==> hm.keyOrder == old(hm.keyOrder) &&
+//@             (forall j int :: 0 <= j && j < old(len(hm.keyOrder)) ==> old(hm.keyOrder)[j] == old(hm.keyOrder[j])) &&
+//@             (forall j int :: 0 <= j && j <= rangeindex ==> old(hm.keyOrder[j]) != keyName)
+//@   loop 1 invariant [done] len(hm.keyOrder) != old(len(hm.keyOrder)) ==>
+//@             (exists p int :: 0 <= p && p <= rangeindex && old(hm.keyOrder[p]) == keyName &&
+//@               len(hm.keyOrder) == old(len(hm.keyOrder)) - 1 && hm.keyOrder.base == old(hm.keyOrder).base &&
+//@               hm.keyOrder.off == old(hm.keyOrder).off && cap(hm.keyOrder) == old(cap(hm.keyOrder)) &&
+//@               (forall j int :: 0 <= j && j < p ==> hm.keyOrder[j] == old(hm.keyOrder[j])) &&
+//@               (forall j int :: p <= j && j < old(len(hm.keyOrder)) - 1 ==> hm.keyOrder[j] == old(hm.keyOrder[j+1])) &&
+//@               (forall j int :: p < j && j < old(len(hm.keyOrder)) ==> hm.keyOrder[j-1] == old(hm.keyOrder[j])) &&
+//@               old(hm.keyOrder)[old(len(hm.keyOrder)) - 1] == old(hm.keyOrder[len(hm.keyOrder) - 1]))
